@@ -45,7 +45,7 @@ Lemma nf_check_inv c oi g ty sent :
   forallb (nf_okA c oi ty) sent = true /\
   (nf_type_eqb ty NfProblem = true -> oi_tick oi = false -> cx_volatile (oi_ctx oi) = false ->
      forallb (fun u => negb (nf_api_state (nfc_svc c) (cx_raw (oi_ctx oi)) =? nf_lns_get u (g_last g))) sent = true) /\
-  (nf_type_eqb ty NfProblem = true -> oi_tick oi = true -> oi_remposs oi = true ->
+  (nf_type_eqb ty NfProblem = true -> oi_tick oi = true -> oi_kp oi <= g_cnt g ->
      nf_rem_ctx_ok c (oi_ctx oi) = true /\
      (forall t, g_rem g = Some t -> t + nfc_interval c <= oi_now oi) /\
      (nfc_interval c <= 0 -> g_ps g = true -> g_bad g = true)) /\
@@ -58,7 +58,7 @@ Proof.
       by (apply nf_type_eqb_eq in Ep; subst ty; reflexivity).
     rewrite Era. cbn [andb].
     destruct (oi_tick oi) eqn:Ht; cbn [negb andb].
-    + destruct (oi_remposs oi) eqn:Hr; cbn [andb].
+    + destruct (oi_kp oi <=? g_cnt g) eqn:Hr; cbn [andb].
       * destruct (nf_rem_ctx_ok c (oi_ctx oi)) eqn:R1; cbn [negb]; [|discriminate].
         destruct (match g_rem g with Some t => t + nfc_interval c <=? oi_now oi | None => true end) eqn:R2; cbn [negb]; [|discriminate].
         intros H. split; [reflexivity|]. split; [discriminate|]. split; [|discriminate].
@@ -66,7 +66,7 @@ Proof.
         -- intros t Hg. rewrite Hg in R2. lia.
         -- intros Hi Hps. assert (nfc_interval c <=? 0 = true) as Ei by lia. rewrite Ei, Hps in H. cbn in H.
            destruct (g_bad g); [reflexivity|discriminate].
-      * intros _. split; [reflexivity|]. split; [discriminate|]. split; discriminate.
+      * intros _. split; [reflexivity|]. split; [discriminate|]. split; [intros _ _ Hk; lia|discriminate].
     + destruct (cx_volatile (oi_ctx oi)) eqn:Hv; cbn [negb andb].
       * intros _. split; [reflexivity|]. split; [discriminate|]. split; discriminate.
       * destruct (forallb (fun u : Z => negb (nf_api_state (nfc_svc c) (cx_raw (oi_ctx oi)) =? nf_lns_get u (g_last g))) sent) eqn:K3;
@@ -116,7 +116,7 @@ Qed.
 
 Theorem nf_reminders g oi sent :
   In (g, oi, NfoDone NfProblem sent) (nf_run_points c h) ->
-  oi_tick oi = true -> oi_remposs oi = true ->
+  oi_tick oi = true -> oi_kp oi <= g_cnt g ->
   nf_rem_ctx_ok c (oi_ctx oi) = true /\
   (forall t, g_rem g = Some t -> t + nfc_interval c <= oi_now oi) /\
   (nfc_interval c <= 0 -> nf_nomore_reset g = false -> g_ps g = false).
@@ -336,14 +336,39 @@ Definition nf_w_nomore_hist : list nf_op :=
 Theorem nf_nomore_refuted :
   exists g oi sent,
     In (g, oi, NfoDone NfProblem sent) (nf_run_points nf_w_nomore_cfg nf_w_nomore_hist) /\
-    oi_tick oi = true /\ oi_remposs oi = true /\ sent = [1] /\
+    oi_tick oi = true /\ oi_kp oi <= g_cnt g /\ sent = [1] /\
     nfc_interval nf_w_nomore_cfg <= 0 /\ g_ps g = true /\ nf_nomore_reset g = true /\
     snd (nf_oracle nf_w_nomore_cfg (nf_model_trace nf_w_nomore_cfg nf_init nf_w_nomore_hist)) = Some (2, 101).
 Proof.
   eexists. eexists. exists [1]. split.
   - vm_compute. right. right. left. reflexivity.
-  - repeat split; vm_compute; try reflexivity. discriminate.
+  - repeat split; vm_compute; try reflexivity; discriminate.
 Qed.
+
+(* the tick in which the timer itself delivers the first Problem (withheld by the closed period, interval 0):
+   exactly one Problem goes out, it is accounted for by the withheld type (oi_kp = 1), and a second Problem in
+   the same tick would be classified as a reminder and rejected by the interval-0 clause *)
+Definition nf_w_ctx_per (raw : Z) (closed : bool) : nf_ctx :=
+  {| cx_users := [nf_w_user]; cx_raw := raw; cx_hard := true; cx_lhsc := 2000000000; cx_volatile := false;
+     cx_glob_en := true; cx_ck_en := true; cx_downtime := false; cx_acked := false; cx_reachable := true;
+     cx_flapping := false; cx_ck_supp_problem := false; cx_paused := false; cx_ha := false; cx_auth := true;
+     cx_per_closed := closed; cx_has_cr := true; cx_cr_ok := raw =? 0; cx_soon := false |}.
+Definition nf_w_timer_hist : list nf_op :=
+  [NfRequest 2000000000 (nf_w_ctx_per 2 true) NfProblem false;
+   NfTick 2000000010 (nf_w_ctx_per 2 false);
+   NfTick 2000000020 (nf_w_ctx_per 2 false)].
+
+Lemma nf_timer_first_problem :
+  nf_oracle nf_w_nomore_cfg (nf_model_trace nf_w_nomore_cfg nf_init nf_w_timer_hist) = (None, None) /\
+  map (fun p => (oi_kp (snd (fst p)), g_cnt (fst (fst p)), snd p)) (nf_run_points nf_w_nomore_cfg nf_w_timer_hist)
+    = [(1, 0, NfoDone NfProblem [1])] /\
+  (* what the observer says about an implementation that sends a second Problem in that tick *)
+  fst (nf_oracle nf_w_nomore_cfg
+        [{| os_op := NfRequest 2000000000 (nf_w_ctx_per 2 true) NfProblem false; os_evs := []; os_stash := [];
+            os_sup_problem := true |};
+         {| os_op := NfTick 2000000010 (nf_w_ctx_per 2 false); os_evs := [NfoDone NfProblem [1]; NfoDone NfProblem [1]];
+            os_stash := []; os_sup_problem := false |}]) = Some (1, 6).
+Proof. repeat split; vm_compute; reflexivity. Qed.
 
 (* non-vacuity: a run in which every clause is exercised without touching a finding *)
 Definition nf_w_ok_cfg : nf_cfg :=
